@@ -70,17 +70,25 @@ pub mod time_mirror {
     #[verifier::external_body]
     #[verifier::reject_recursive_types(T)]
     pub struct Timer<T> { _p: core::marker::PhantomData<T> }
+    /// the state value a timeout was set with
+    pub uninterp spec fn timeout_state<T>(t: &Timeout) -> T;
     impl<T> Timer<T> {
         pub uninterp spec fn armed(&self) -> bool;
         /// (delay, state) of the most recent set_timeout
         pub uninterp spec fn last_set(&self) -> (Duration, T);
+        /// the state values of the timeouts that are set and have neither fired nor been cancelled
+        pub uninterp spec fn pending(&self) -> vstd::multiset::Multiset<T>;
         #[verifier::external_body]
         pub fn set_timeout(&mut self, delay: Duration, state: T) -> (r: Timeout)
             ensures final(self).armed(), final(self).last_set() == (delay, state),
+                final(self).pending() == old(self).pending().insert(state), timeout_state::<T>(&r) == state,
         { unimplemented!() }
+        /// cancelling removes the timeout if it is still pending (Some(its state)), and does nothing otherwise
         #[verifier::external_body]
         pub fn cancel_timeout(&mut self, timeout: &Timeout) -> (r: Option<T>)
             ensures final(self).armed() == old(self).armed(), final(self).last_set() == old(self).last_set(),
+                r is Some ==> r->0 == timeout_state::<T>(timeout) && old(self).pending().count(r->0) > 0 && final(self).pending() == old(self).pending().remove(r->0),
+                r is None ==> final(self).pending() == old(self).pending(),
         { unimplemented!() }
     }
 }
